@@ -1,12 +1,13 @@
 ----------------------------- MODULE C21 -----------------------------
 (***************************************************************************)
 (* C21: names resolve to the innermost visible declaration; imports are    *)
-(* exact.  Every state of this specification is one *layout* (declared     *)
+(* exact.  Every non-initial state of this spec is one *layout* (declared  *)
 (* names per file, import forms, nesting of scopes and their binders); the *)
 (* invariant evaluates spec/front/AbraResolve on it and writes the         *)
 (* multi-file program(s) with the expected observation:                    *)
 (*   full     every use; expected: the exact set of unresolved-identifier  *)
-(*            diagnostics (file, byte range) and of clash messages, or -   *)
+(*            diagnostics (file, line, column, length; also the byte       *)
+(*            range) and of clash messages, or -                           *)
 (*            when there are none - the printed identities                 *)
 (*   pruned   the uses the model resolves; must compile and print the      *)
 (*            identities of the denoted declarations                       *)
@@ -55,7 +56,7 @@ AsQ == [form |-> "as", names |-> <<>>, alias |-> "q"]
 ImpLayouts ==
   IF Tier = "thorough"
   THEN \* which names collide: declared sets x every pair of import forms of main
-       ImpBox(P2, {<<>>, <<"a">>}, {<<"a">>, <<"b">>, P2}, {<<"a">>, P2}, Forms(P2, {"p", "a"}), Forms(P2, {"p", "q"}),
+       ImpBox(P2, SubSeqsOf(P2), SubSeqsOf(P2) \ {<<>>}, SubSeqsOf(P2) \ {<<>>}, Forms(P2, {"p", "a"}), Forms(P2, {"p", "q"}),
               {Glob}, {FALSE}, {FALSE})
        \* m1 does not import m2 / imports it under a prefix
        \cup ImpBox(P2, {<<"a">>}, {P2}, {<<"a">>}, Forms(P2, {"p", "a"}), Forms(P2, {"p", "q"}), {NoImp, AsQ}, {FALSE}, {FALSE})
@@ -106,7 +107,7 @@ ScopeBox(tS, k1S, b1S, k2S, b2S, lS, pmS) ==
 N3 == {"", "a", "b", "c"}
 ScopeLayouts ==
   IF Tier = "thorough"
-  THEN ScopeBox({"", "a", "c"}, ScopeKinds, N3, ScopeKinds, {"", "a", "c"}, {"", "a"}, {"k"})
+  THEN ScopeBox(N3, ScopeKinds, N3, ScopeKinds, N3, N3, {"k"})
        \cup ScopeBox(N3, {"block"}, N3, {"block"}, {""}, {""}, {"a", "b", "c"})
   ELSE LET r == Rot(P3)
        IN ScopeBox({"", r[1]}, ScopeKinds, {"", r[1], r[3]}, ScopeKinds, {"", r[1]}, {"", r[3]}, {"k"})
